@@ -210,31 +210,41 @@ def run(ctx):
         cfg = cfg_of(wp)
         rd = cfg.reaching_defs(wp.params())
         rets = [n for n in cfg.nodes if n.kind == "stmt" and isinstance(n.ast, ast.Return)]
-        key = f"{wp.key}::cumulative sum of [x0, amp*xi]"
+        key = f"{wp.key}::x0 followed by the running sum of the increments"
         if len(rets) != 1:
             ctx.und("R29.1", key, f"{len(rets)} returns", wp)
         else:
-            e = inline_at(cfg, rd, rets[0].id, rets[0].ast.value, depth=0)
-            okk = isinstance(e, ast.Call) and call_name(e) == "cumsum" and isinstance(e.args[0], ast.Call) and call_name(e.args[0]) == "concatenate"
-            incr = None
-            if okk:
-                tup = e.args[0].args[0]
-                okk = isinstance(tup, ast.Tuple) and len(tup.elts) == 2 and x0_n in src(tup.elts[0]) and xi_n not in src(tup.elts[0])
-                incr = tup.elts[1] if okk else None
-            ctx.check("R29.1", key, okk, src(e)[:160], wp)
-            if incr is not None:
-                e2 = inline_at(cfg, rd, rets[0].id, incr, depth=2)
+            e = inline_at(cfg, rd, rets[0].id, rets[0].ast.value, depth=3)
+            cums = [c for c in ast.walk(e) if isinstance(c, ast.Call) and call_name(c) == "cumsum" and c.args]
+            incr, outside = None, None
+            if len(cums) == 1:
+                w = cums[0].args[0]
+                if isinstance(w, ast.Call) and call_name(w) == "concatenate" and isinstance(w.args[0], (ast.Tuple, ast.List)) and len(w.args[0].elts) == 2 \
+                        and x0_n in src(w.args[0].elts[0]) and xi_n not in src(w.args[0].elts[0]):
+                    incr = w.args[0].elts[1]
+                    outside = e is cums[0]
+                elif xi_n in src(w):
+                    incr = w
+                    outside = False
+            if incr is None:
+                ctx.und("R29.1", key, f"`{src(e)[:160]}` not recognised", wp)
+            else:
+                ctx.ok("R29.1", key, src(e)[:160], wp)
                 try:
                     xis = sp.Symbol("xi", real=True)
-                    t = _scalar(sp, e2, {sig_n: sigma, dt_n: dt, xi_n: xis})
+                    t = _scalar(sp, incr, {sig_n: sigma, dt_n: dt, xi_n: xis})
                     amp = sp.diff(t, xis)
                     lin = sp.simplify(t - amp * xis) == 0
                     var = sp.simplify(amp ** 2)
-                    ctx.check("R29.1", f"{wp.key}::increment variance is sigma^2*dt", bool(lin and sp.simplify(var - sigma ** 2 * dt) == 0), f"increment {t}", wp)
+                    good = bool(lin and sp.simplify(var - sigma ** 2 * dt) == 0)
+                    det = f"summed increment {t}"
+                    if not good and sp.simplify(var - dt) == 0 and sig_n in src(e).replace(src(cums[0]), ""):
+                        det += f"; `{sig_n}` multiplies the running sum from outside: with a per-interval sigma the increments sigma_k*sqrt(dt_k)*xi_k are not summed"
+                    ctx.check("R29.1", f"{wp.key}::increment variance is sigma^2*dt (sigma inside the running sum)", good, det, wp)
                     add_ok = sp.simplify(var.subs(dt, a + b) - var.subs(dt, a) - var.subs(dt, b)) == 0
                     ctx.check("R29.1", f"{wp.key}::two steps equal one (variance additive in dt)", bool(add_ok), f"Var(dt) = {var}", wp)
                 except NotUnderstood as exc:
-                    ctx.und("R29.1", f"{wp.key}::increment variance is sigma^2*dt", f"term not understood: {exc}", wp)
+                    ctx.und("R29.1", f"{wp.key}::increment variance is sigma^2*dt (sigma inside the running sum)", f"term not understood: {exc}", wp)
     # ---------------------------------------------------------------- OU
     ou = fn("ornstein_uhlenbeck_process")
     if ou is not None:
@@ -255,12 +265,34 @@ def run(ctx):
             try:
                 env = {sig_n: sigma, gam_n: gamma, dt_n: dt}
                 dr = _scalar(sp, inline_at(cfg, rd, rets[0].id, args[2], depth=3), env)
-                am = _scalar(sp, inline_at(cfg, rd, rets[0].id, args[3], depth=3), env)
+                am_ast = inline_at(cfg, rd, rets[0].id, args[3], depth=4)
+                wheres = [c_ for c_ in ast.walk(am_ast) if isinstance(c_, ast.Call) and call_name(c_) == "where" and len(c_.args) == 3]
+                approx = None
+                if len(wheres) == 1:
+                    import copy
+
+                    def pick(k):
+                        class R(ast.NodeTransformer):
+                            def visit_Call(self, node):
+                                if src(node) == src(wheres[0]):
+                                    return copy.deepcopy(node.args[k])
+                                return self.generic_visit(node)
+                        return R().visit(copy.deepcopy(am_ast))
+                    b1, b2 = _scalar(sp, pick(1), env), _scalar(sp, pick(2), env)
+                    # the exact branch is the one that contains the exponential
+                    am, approx = (b1, b2) if b1.has(sp.exp) else (b2, b1)
+                else:
+                    am = _scalar(sp, am_ast, env)
                 ok1 = sp.simplify(dr.subs(dt, a + b) - dr.subs(dt, a) * dr.subs(dt, b)) == 0 and sp.simplify(dr - sp.exp(-gamma * dt)) == 0
                 ctx.check("R29.2", f"{ou.key}::drift = exp(-gamma*dt) (a semigroup in dt)", bool(ok1), f"drift {dr}", ou)
                 q = sp.simplify(am ** 2)
                 ok2 = sp.simplify(q.subs(dt, a + b) - dr.subs(dt, b) ** 2 * q.subs(dt, a) - q.subs(dt, b)) == 0
                 ctx.check("R29.2", f"{ou.key}::two steps equal one (variance composition)", bool(ok2), f"amp^2 = {q}", ou)
+                if approx is not None:
+                    lead = sp.series(sp.simplify(am ** 2), dt, 0, 2).removeO()
+                    oka = sp.simplify(sp.simplify(approx ** 2) - lead) == 0
+                    ctx.check("R29.2", f"{ou.key}::small-step branch is the leading order of the exact variance", bool(oka),
+                              f"branch variance {sp.simplify(approx ** 2)}; exact variance {sp.simplify(am ** 2)} = {lead} + O(dt^2)", ou)
                 stat = sp.limit(q, dt, sp.oo)
                 # default x0 of the model: res * sigma  (steady state)
                 oup = mod.functions.get("OrnsteinUhlenbeckProcess")
@@ -305,9 +337,27 @@ def run(ctx):
         body = gp.node.body
         noise = [st for st in walk_no_nested(gp.node) if isinstance(st, ast.Assign) and isinstance(st.value, ast.Call) and isinstance(st.value.func, ast.Call)
                  and call_name(st.value.func) == "vmap"]
-        okn = len(noise) == 1 and src(noise[0].value.func.args[0]).endswith("matmul") and [src(x) for x in noise[0].value.args] == [da_n, xi_n]
-        ctx.check("R29.4", f"{gp.key}::noise term is diffamp_i @ xi_i", okn, src(noise[0].value) if noise else None, gp)
         arrn = src(noise[0].targets[0]) if noise else None
+        alld = [st for st in walk_no_nested(gp.node) if isinstance(st, ast.Assign) and arrn and src(st.targets[0]) == arrn
+                and not (isinstance(st.value, ast.Call) and call_name(st.value) == "concatenate")]
+        okn, detn = bool(noise), []
+        for st in alld:
+            v = st.value
+            if isinstance(v, ast.Call) and isinstance(v.func, ast.Call) and call_name(v.func) == "vmap":
+                good = src(v.func.args[0]).endswith("matmul") and [src(x) for x in v.args] == [da_n, xi_n]
+            elif isinstance(v, ast.Call) and call_name(v) == "matmul" and len(v.args) == 2:
+                a_, b_ = [src(x).replace(" ", "") for x in v.args]
+                # rows of xi times a constant matrix: xi @ A^T  (A on the left of each row vector)
+                good = (a_, b_) in ((xi_n, f"{da_n}.T"), (xi_n, f"jnp.transpose({da_n})"), (xi_n, f"{da_n}.swapaxes(-1,-2)"))
+                if (a_, b_) == (xi_n, da_n):
+                    detn.append(f"`{src(v)}` multiplies every excitation row by the TRANSPOSED amplitude (xi @ A = (A^T xi^T)^T): covariance A^T A instead of A A^T")
+            else:
+                good = None
+            if good is False or good is None:
+                okn = good if okn else okn
+            if good is False:
+                okn = False
+        ctx.check("R29.4", f"{gp.key}::noise term is diffamp_i @ xi_i", okn, "; ".join(detn) or (src(noise[0].value) if noise else None), gp)
         cat = [st for st in walk_no_nested(gp.node) if isinstance(st, ast.Assign) and isinstance(st.value, ast.Call) and call_name(st.value) == "concatenate"]
         okc = len(cat) == 1 and arrn is not None and src(cat[0].targets[0]) == arrn and isinstance(cat[0].value.args[0], (ast.List, ast.Tuple)) \
             and len(cat[0].value.args[0].elts) == 2 and src(cat[0].value.args[0].elts[0]).startswith(x0_n + "[") and src(cat[0].value.args[0].elts[1]) == arrn
